@@ -117,7 +117,7 @@ func (eng *Engine) verifyFunc(fn *ssa.Function, props []string) (fc *FnCtx, err 
 		}
 		// trusted axioms (facts about dependencies' globals, e.g. io.EOF != nil) hold in the entry state
 		for _, ax := range eng.contracts.Axioms {
-			if !axiomRelevant(ax, fn) {
+			if !axiomRelevant(ax, fn) || !axiomInScope(ax, props) { // axiomInScope: ext_lemma_axioms.go
 				continue
 			}
 			aenv := &SpecEnv{fc: fc, vars: map[string]SV{}, cur: st, old: st, pkg: eng.pkgOfSpec(&FuncSpec{Pkg: ax.Pkg})}
@@ -196,6 +196,7 @@ func (fc *FnCtx) preamble() string {
 	if d := fc.tc.strDistinct(); d != "" {
 		b.WriteString(d + "\n")
 	}
+	b.WriteString(fc.algebraAxioms()) // ext_bytesalgebra.go: only when blen/sub/strseq are used
 	return b.String()
 }
 
@@ -230,6 +231,9 @@ func (eng *Engine) lemmaCtx(l *Lemma) (fc *FnCtx, err error) {
 			return nil, fmt.Errorf("contract-stale: lemma %s: %v", l.Name, e)
 		}
 		fc.assume("true", t)
+	}
+	if e := eng.assumeLemmaAxioms(fc, st, l); e != nil { // ext_lemma_axioms.go
+		return nil, fmt.Errorf("contract-stale: lemma %s: axiom: %v", l.Name, e)
 	}
 	cov := &Obligation{Name: "lemma:" + l.Name + "#cover", Kind: "cover", Func: "lemma:" + l.Name, Guard: "true", Cond: "false", Cover: true}
 	fc.script = append(fc.script, Item{ob: cov})
